@@ -371,3 +371,59 @@ package starlark
 //@   requires x != nil && y != nil && !x.frozen && x.itercount == 0
 //@   invariant 1 !x.frozen && x.itercount == 0
 //@   ensures [C06] g_open == old(g_open)
+
+// ---- freezing (C04). frz(v): Freeze has been invoked on v (ghost; non-reference values are
+// immutable and count). Each container's Freeze must invoke Freeze on everything one edge away;
+// deep freezing of everything reachable follows by induction over those edges (DESIGN 5/C04).
+//@ func Value.Freeze
+//@   prop C04
+//@   modifies List.frozen, hashtable.frozen, starlarkstruct.Struct.frozen, $mem:bool, $ghost:frz
+//@   ensures ghost: frz(self) && frzmono()
+//@   ensures flags_only_set: mono(List.frozen) && mono(hashtable.frozen)
+//@ func List.Freeze
+//@   prop C04
+//@   requires l != nil
+//@   modifies List.frozen, hashtable.frozen, starlarkstruct.Struct.frozen, $mem:bool, $ghost:frz
+//@   invariant 1 rangeindex >= -1 && l.frozen && forall(k, 0, rangeindex + 1, frz(l.elems[k])) && frzmono() && mono(List.frozen) && mono(hashtable.frozen)
+//@   ensures ghost: frz(l)
+//@   ensures l.frozen && frzmono() && mono(List.frozen) && mono(hashtable.frozen)
+//@   ensures elems: !old(l.frozen) ==> forall(k, 0, len(l.elems), frz(l.elems[k]))
+//@ func Tuple.Freeze
+//@   prop C04
+//@   modifies List.frozen, hashtable.frozen, starlarkstruct.Struct.frozen, $mem:bool, $ghost:frz
+//@   invariant 1 rangeindex >= -1 && forall(k, 0, rangeindex + 1, frz(t[k])) && frzmono() && mono(List.frozen) && mono(hashtable.frozen)
+//@   ensures ghost: frz(t)
+//@   ensures elems: forall(k, 0, len(t), frz(t[k])) && frzmono() && mono(List.frozen) && mono(hashtable.frozen)
+//@ func hashtable.freeze
+//@   prop C04
+//@   requires ht != nil
+//@   modifies List.frozen, hashtable.frozen, starlarkstruct.Struct.frozen, $mem:bool, $ghost:frz
+//@   invariant 1 ht.frozen && mono(List.frozen) && mono(hashtable.frozen)
+//@   bodyensures 1 keys_and_values: frz(e.key) && frz(e.value)
+//@   ensures ht.frozen && mono(List.frozen) && mono(hashtable.frozen)
+//@ func Function.Freeze
+//@   prop C04
+//@   requires fn != nil
+//@   modifies List.frozen, hashtable.frozen, starlarkstruct.Struct.frozen, $mem:bool, $ghost:frz
+//@   ensures ghost: frz(fn)
+//@   ensures forall(k, 0, len(fn.defaults), frz(fn.defaults[k])) && forall(k, 0, len(fn.freevars), frz(fn.freevars[k]))
+//@ func Builtin.Freeze
+//@   prop C04
+//@   requires b != nil
+//@   modifies List.frozen, hashtable.frozen, starlarkstruct.Struct.frozen, $mem:bool, $ghost:frz
+//@   ensures ghost: frz(b)
+//@   ensures b.recv != nil ==> frz(b.recv)
+//@ func cell.Freeze
+//@   prop C04
+//@   requires c != nil
+//@   modifies List.frozen, hashtable.frozen, starlarkstruct.Struct.frozen, $mem:bool, $ghost:frz
+//@   ensures ghost: frz(c)
+//@   ensures c.v != nil ==> frz(c.v)
+//@ func StringDict.Freeze
+//@   prop C04
+//@   modifies List.frozen, hashtable.frozen, starlarkstruct.Struct.frozen, $mem:bool, $ghost:frz
+//@   ensures ghost: frz(d)
+// A finished module's globals are frozen whether initialisation succeeded or failed.
+//@ func ExecFileOptions
+//@   prop C04
+//@   ensures frozen_on_every_path: result0 != nil ==> frz(result0)
